@@ -4,6 +4,7 @@ import (
 	"encoding/json"
 	"fmt"
 	"math/rand"
+	"strings"
 
 	mxj "github.com/clbanning/mxj/v2"
 	"github.com/clbanning/mxj/v2/j2x"
@@ -60,6 +61,10 @@ func (c07) Case(c *core.Ctx) {
 	if r.Intn(5) == 0 {
 		root = g.Fresh().Map(r, 1+r.Intn(4))
 	}
+	if r.Intn(6) == 0 {
+		// the same map object stored in two places (a DAG): what the path denotes is unchanged
+		c.Add("shape:aliased-submaps", int64(jv.Alias(r, root, 1+r.Intn(2), nil)))
+	}
 	segs := genPath(r, root, append([]string{"doc"}, g.Keys...), true, true)
 	// indexes only on non-wildcard steps (quantifier)
 	for i := range segs {
@@ -70,6 +75,21 @@ func (c07) Case(c *core.Ctx) {
 	path := pathStringR(r, segs)
 	before := jv.Fp(root)
 	want := refEval(root, segs)
+	hugeIdx := false
+	if numIndexed(segs) > 0 && r.Intn(40) == 0 {
+		// a subscript no list can have: the path denotes nothing (an error is accepted as well)
+		for i := range segs {
+			if segs[i].idx >= 0 {
+				huge := []string{"2147483647", "2147483648", "4294967296", "9223372036854775807", "9223372036854775808", "18446744073709551615", "18446744073709551616"}[r.Intn(7)]
+				parts := strings.Split(path, ".")
+				parts[i] = segs[i].name + "[" + huge + "]"
+				path = strings.Join(parts, ".")
+				break
+			}
+		}
+		want, hugeIdx = nil, true
+		c.Count("subscript-beyond-any-list")
+	}
 	wild := hasWildcard(segs)
 
 	oneIn := 6
@@ -80,6 +100,7 @@ func (c07) Case(c *core.Ctx) {
 		defer ResetDefaults()
 	}
 	c.Eval()
+	failedCalls(c, 8)
 	got, err := mxj.Map(root).ValuesForPath(path)
 	if len(want) > 32 {
 		c.Count("result>32")
@@ -110,6 +131,9 @@ func (c07) Case(c *core.Ctx) {
 	}
 	det := func() core.D {
 		return core.D{"map": jv.Show(root), "path": path, "expected": jv.Show(want), "observed": jv.Show(got), "err": fmt.Sprint(err)}
+	}
+	if err != nil && hugeIdx {
+		return // refusing a subscript that does not fit an int is fine; returning a value or panicking is not
 	}
 	if err != nil {
 		c.Violate("c07-error", "ValuesForPath returned an error for a well-formed path", det())
